@@ -585,11 +585,19 @@ func (n *node) RouteLinkPID(pid gen.PID, target gen.PID) error {
 		return err
 	}
 
-	if err := connection.LinkPID(pid, target); err != nil {
+	// create the relation first: a node-down or a termination message that arrives
+	// right after the peer has acknowledged the request must be able to find it
+	if err := n.targetManager.AddLink(pid, target); err != nil {
 		return err
 	}
-
-	return n.targetManager.AddLink(pid, target)
+	if err := connection.LinkPID(pid, target); err != nil {
+		if rerr := n.targetManager.RemoveLink(pid, target); rerr != nil {
+			// already taken by the node-down routine: the notification is on its way
+			return nil
+		}
+		return err
+	}
+	return nil
 }
 
 func (n *node) RouteUnlinkPID(pid gen.PID, target gen.PID) error {
@@ -655,11 +663,19 @@ func (n *node) RouteLinkProcessID(pid gen.PID, target gen.ProcessID) error {
 		return err
 	}
 
-	if err := connection.LinkProcessID(pid, target); err != nil {
+	// create the relation first: a node-down or a termination message that arrives
+	// right after the peer has acknowledged the request must be able to find it
+	if err := n.targetManager.AddLink(pid, target); err != nil {
 		return err
 	}
-
-	return n.targetManager.AddLink(pid, target)
+	if err := connection.LinkProcessID(pid, target); err != nil {
+		if rerr := n.targetManager.RemoveLink(pid, target); rerr != nil {
+			// already taken by the node-down routine: the notification is on its way
+			return nil
+		}
+		return err
+	}
+	return nil
 }
 
 func (n *node) RouteUnlinkProcessID(pid gen.PID, target gen.ProcessID) error {
@@ -722,11 +738,19 @@ func (n *node) RouteLinkAlias(pid gen.PID, target gen.Alias) error {
 		return err
 	}
 
-	if err := connection.LinkAlias(pid, target); err != nil {
+	// create the relation first: a node-down or a termination message that arrives
+	// right after the peer has acknowledged the request must be able to find it
+	if err := n.targetManager.AddLink(pid, target); err != nil {
 		return err
 	}
-
-	return n.targetManager.AddLink(pid, target)
+	if err := connection.LinkAlias(pid, target); err != nil {
+		if rerr := n.targetManager.RemoveLink(pid, target); rerr != nil {
+			// already taken by the node-down routine: the notification is on its way
+			return nil
+		}
+		return err
+	}
+	return nil
 }
 
 func (n *node) RouteUnlinkAlias(pid gen.PID, target gen.Alias) error {
@@ -823,12 +847,17 @@ func (n *node) RouteLinkEvent(pid gen.PID, target gen.Event) ([]gen.MessageEvent
 		return nil, err
 	}
 
-	lastEventMessages, err := connection.LinkEvent(pid, target)
-	if err != nil {
+	// create the relation first: a node-down or a termination message that arrives
+	// right after the peer has acknowledged the request must be able to find it
+	if err := n.targetManager.AddLink(pid, target); err != nil {
 		return nil, err
 	}
-
-	if err := n.targetManager.AddLink(pid, target); err != nil {
+	lastEventMessages, err := connection.LinkEvent(pid, target)
+	if err != nil {
+		if rerr := n.targetManager.RemoveLink(pid, target); rerr != nil {
+			// already taken by the node-down routine: the notification is on its way
+			return nil, nil
+		}
 		return nil, err
 	}
 
@@ -921,10 +950,19 @@ func (n *node) RouteMonitorPID(pid gen.PID, target gen.PID) error {
 		return err
 	}
 
-	if err := connection.MonitorPID(pid, target); err != nil {
+	// create the relation first: a node-down or a termination message that arrives
+	// right after the peer has acknowledged the request must be able to find it
+	if err := n.targetManager.AddMonitor(pid, target); err != nil {
 		return err
 	}
-	return n.targetManager.AddMonitor(pid, target)
+	if err := connection.MonitorPID(pid, target); err != nil {
+		if rerr := n.targetManager.RemoveMonitor(pid, target); rerr != nil {
+			// already taken by the node-down routine: the notification is on its way
+			return nil
+		}
+		return err
+	}
+	return nil
 }
 
 func (n *node) RouteDemonitorPID(pid gen.PID, target gen.PID) error {
@@ -994,10 +1032,19 @@ func (n *node) RouteMonitorProcessID(pid gen.PID, target gen.ProcessID) error {
 		return err
 	}
 
-	if err := connection.MonitorProcessID(pid, target); err != nil {
+	// create the relation first: a node-down or a termination message that arrives
+	// right after the peer has acknowledged the request must be able to find it
+	if err := n.targetManager.AddMonitor(pid, target); err != nil {
 		return err
 	}
-	return n.targetManager.AddMonitor(pid, target)
+	if err := connection.MonitorProcessID(pid, target); err != nil {
+		if rerr := n.targetManager.RemoveMonitor(pid, target); rerr != nil {
+			// already taken by the node-down routine: the notification is on its way
+			return nil
+		}
+		return err
+	}
+	return nil
 }
 
 func (n *node) RouteDemonitorProcessID(pid gen.PID, target gen.ProcessID) error {
@@ -1063,11 +1110,19 @@ func (n *node) RouteMonitorAlias(pid gen.PID, target gen.Alias) error {
 		return err
 	}
 
-	if err := connection.MonitorAlias(pid, target); err != nil {
+	// create the relation first: a node-down or a termination message that arrives
+	// right after the peer has acknowledged the request must be able to find it
+	if err := n.targetManager.AddMonitor(pid, target); err != nil {
 		return err
 	}
-
-	return n.targetManager.AddMonitor(pid, target)
+	if err := connection.MonitorAlias(pid, target); err != nil {
+		if rerr := n.targetManager.RemoveMonitor(pid, target); rerr != nil {
+			// already taken by the node-down routine: the notification is on its way
+			return nil
+		}
+		return err
+	}
+	return nil
 }
 
 func (n *node) RouteDemonitorAlias(pid gen.PID, target gen.Alias) error {
@@ -1163,14 +1218,20 @@ func (n *node) RouteMonitorEvent(pid gen.PID, target gen.Event) ([]gen.MessageEv
 		return nil, err
 	}
 
-	lastEventMessages, err := connection.MonitorEvent(pid, target)
-	if err != nil {
-		return nil, err
-	}
-
+	// create the relation first: a node-down or a termination message that arrives
+	// right after the peer has acknowledged the request must be able to find it
 	if err := n.targetManager.AddMonitor(pid, target); err != nil {
 		return nil, err
 	}
+	lastEventMessages, err := connection.MonitorEvent(pid, target)
+	if err != nil {
+		if rerr := n.targetManager.RemoveMonitor(pid, target); rerr != nil {
+			// already taken by the node-down routine: the notification is on its way
+			return nil, nil
+		}
+		return nil, err
+	}
+
 	return lastEventMessages, nil
 }
 
